@@ -259,8 +259,9 @@ def frac_pairs(tier):
         return FRAC_PAIRS_QUICK
     out = list(FRAC_PAIRS_QUICK)
     for w in range(1, 31):
-        for f in (0.5, 0.25, 0.75, 0.125, 0.375, 0.625, 0.875, 0.3, 0.7, 0.05, 0.95):
-            if (w, f) not in out and (w * f * 2 == int(w * f * 2) or w % 5 == 0):
+        for f in (0.5, 0.25, 0.75, 0.125, 0.375, 0.3, 0.7, 0.05, 0.95):
+            half = (w * f * 2 == int(w * f * 2)) and int(w * f * 2) % 2 == 1
+            if (w, f) not in out and (half or w % 10 == 0):
                 out.append((w, f))
     return out
 
@@ -271,7 +272,7 @@ def frac_cases(tier, seed, rule):
     if len(names) < 4:                       # curated list renamed: take the first ones
         names = [n for n, _ in gen_docs.curated_classic()][:6]
     if tier != 'quick':
-        names = names + [n for n in cur if n not in names][:10]
+        names = names + [n for n in cur if n not in names][:5]
     out = []
     for w, f in frac_pairs(tier):
         for n in names:
